@@ -831,7 +831,7 @@ class Recorder(object):
                                  tid=row['target_id'], ttx=row['target_tx_id']))
             acts.sort(key=lambda a: a['id'])
         return dict(live=live, vt=vt, av=av, alive=alive, tx=txs, chg=chg, acts=acts,
-                    uows=len(env.manager.units_of_work) if env.versioned else 0,
+                    uows=(len(env.manager.units_of_work) + len(getattr(env.manager, 'savepoints', {}))) if env.versioned else 0,
                     smap=len(env.manager.session_connection_map) if env.versioned else 0)
 
 
